@@ -167,9 +167,11 @@ pub enum Hint {
     Exact,
     Low,
     Zero,
-    /// lower bound larger than the real length (a lying but legal-to-call iterator is NOT legal:
-    /// size_hint lower bound must be correct for well-behaved iterators; unused by generators)
+    /// (0, Some(usize::MAX))
     Unbounded,
+    /// exact lower bound, loose upper bound: (left, Some(left + k)) - legal for every iterator
+    /// whose adaptor cannot know how many elements survive (filter, take_while, chars, ...)
+    Over(u32),
 }
 
 #[derive(Debug, Clone, Copy, PartialEq, Eq, Hash, Serialize, Deserialize)]
@@ -335,6 +337,10 @@ pub struct Case {
     pub len: u32,
     pub fill: Fill,
     pub fault: Option<Fault>,
+    /// unresolved fault choice (kind, entropy for the op, entropy for k): resolved against a
+    /// fault-free counting run so that the fault lands on an event that exists
+    #[serde(default)]
+    pub fault_pick: Option<(FaultKind, u16, u16)>,
     pub ops: Vec<Op>,
     /// seed for the choices the interpreter makes itself (drop order at the end, poison picks)
     pub salt: u32,
@@ -350,6 +356,7 @@ impl Case {
             len: len as u32,
             fill: Fill::Leave,
             fault: None,
+            fault_pick: None,
             ops,
             salt: 0,
         }
